@@ -239,7 +239,8 @@ def observe(frames):
             continue
         if f.get("method") == "textDocument/publishDiagnostics":
             p = f["params"]
-            diags = sorted((d.get("code"), d["range"]["start"]["line"], d["range"]["start"]["character"])
+            diags = sorted((d.get("code"), d["range"]["start"]["line"], d["range"]["start"]["character"],
+                            d["range"]["end"]["line"], d["range"]["end"]["character"])
                            for d in p.get("diagnostics", []))
             obs.append({"k": "pub", "u": URI_INV.get(p["uri"], p["uri"]), "v": p.get("version"), "diags": [list(x) for x in diags]})
         elif "id" in f and "method" not in f:
